@@ -83,12 +83,13 @@ def run(ctx):
         ok = len(subs) == 1 and src(subs[0].slice) == idxvar
         r2.check(ok, f"{cli.rel}:RedunClient.oneshot_command:{name}[index]", f"`{name}` is indexed by {[src(s.slice) for s in subs]} (expected once by `{idxvar}`)", cli.rel, subs[0].lineno if subs else oc.lineno)
         if subs:
-            p = cli.parent.get(subs[0])
-            guarded = False
-            while p is not None and p is not oc:
-                if isinstance(p, ast.If) and src(p.test) == "args.array_job":
-                    guarded = True
-                p = cli.parent.get(p)
+            from ..cfg import facts_at as _fa
+
+            ocfg = CFG(oc)
+            stmt = subs[0]
+            while not isinstance(stmt, ast.stmt):
+                stmt = cli.parent.get(stmt)
+            guarded = ("args.array_job", True) in _fa(ocfg, ocfg.node_of(stmt))
             r2.check(guarded, f"{cli.rel}:RedunClient.oneshot_command:{name}:array-mode", f"`{name}` is indexed outside `if args.array_job`", cli.rel, subs[0].lineno)
     ok = any(isinstance(n, ast.If) and src(n.test) == "index is None" and any(isinstance(b, ast.Raise) for b in n.body) for n in ast.walk(oc))
     r2.check(ok, f"{cli.rel}:RedunClient.oneshot_command:missing-index", "a missing array index is not rejected", cli.rel, oc.lineno)
@@ -301,6 +302,35 @@ def run(ctx):
                 )
     if nidx < 3:
         raise AnalysisError(f"only {nidx} eval_hashes[...] lookups found in executors (expected >= 3)", "eval_hashes")
+    # ---- C32.8 a failed oneshot leaves no output file -------------------------------------------
+    # Executors judge a non-script job by the presence of its output file (docker.iter_job_status: `succeeded = output_file.exists()`; the AWS Batch
+    # failure override).  C32.5 covers the path that reaches the task function; a failure *before* that point (import, task lookup, input
+    # unpickling) also ends in the handler that writes the error file -- the handler must remove the output, or the stale one is reported as success.
+    r8 = ctx.rule("C32.8", "oneshot's error handler removes the output file before re-raising", floor=1)
+    one8 = repo.mod("redun/cli.py").func("RedunClient.oneshot_command")
+    c8 = CFG(one8)
+    tries = [t for t in ast.walk(one8) if isinstance(t, ast.Try) and any(isinstance(h.type, ast.Name) and h.type.id == "Exception" for h in t.handlers)]
+    if not tries:
+        raise AnalysisError("oneshot_command: try/except Exception not found", "RedunClient.oneshot_command")
+    top = max(tries, key=lambda t: (t.end_lineno or 0) - t.lineno)
+    for h in top.handlers:
+        raises = [c8.node_of(r) for r in ast.walk(h) if isinstance(r, ast.Raise)]
+        removes = [c8.node_of(c) for c in ast.walk(h) if isinstance(c, ast.Call) and last_attr(c) == "remove" and "output" in src(c.func.value)]
+        no_output = []
+        for t in c8.nodes:
+            if t.kind == "test" and isinstance(t.ast, ast.expr) and src(t.ast) == "output_path" and any(t.ast is x for x in ast.walk(h)):
+                no_output += c8.edge_nodes(t, "F")
+        hentry = next((n for n in c8.nodes if n.kind == "handler" and n.ast is h), None)
+        ok = bool(raises) and bool(removes) and hentry is not None and all(c8.must_pass(hentry, set(removes) | set(no_output), targets=[r]) for r in raises)
+        r8.check(
+            ok,
+            f"redun/cli.py:RedunClient.oneshot_command:handler-removes-output",
+            "the `except Exception` handler of oneshot_command writes the error file and re-raises without removing the job's output file: when the failure happens before the task function is "
+            "reached (broken import in the image, unknown task, unreadable input) an output left under the same eval hash by an earlier run stays, docker.iter_job_status sees `output exists` and the "
+            "failed job is reported done with the stale value",
+            "redun/cli.py",
+            h.lineno,
+        )
 
 
 def _is_scope_expr(e, holders=("job_options",)) -> bool:
